@@ -28,7 +28,7 @@ TABLEGEN = os.path.join(K.CACHE, "tablegen", "release", "tablegen")
 # the alphabet the expressions are written over; the SMT input alphabet is these bytes plus
 # one byte that occurs in no expression (all other bytes behave like it: checked on the table)
 LETTERS = [ord("a"), ord("b"), ord("c")]
-CLASS = [ord("x"), ord("y")]          # the predicate class
+CLASS = [ord("x"), 0xff]             # the predicate class (includes the last byte value)
 OTHER = ord("z")
 SYMS = LETTERS + CLASS + [OTHER]
 
@@ -53,7 +53,7 @@ def show(e):
     if k == "lit":
         return e["s"] or "()"
     if k == "pred":
-        return "[xy]"
+        return "[x\\xff]"
     if k == "empty":
         return "()"
     if k == "nothing":
@@ -450,7 +450,7 @@ def run(tier, seed, gen_info, known_ids=()):
     # second solver on a sample, once per run (encoding sanity)
     rec = {"instance": "c15_equivalence_L%d" % L, "engine": "z3 %s over tables dumped by the real compile()" % "4.8.12",
            "bounds": "%d expressions (all of depth <= 2, seeded sample of depth 3%s, %d tagged choices); every input "
-                     "string of length <= %d over {a,b,c,x,y,other}" % (len(exprs), " and 4" if tier == "thorough" else "",
+                     "string of length <= %d over {a,b,c,x,0xff,other}" % (len(exprs), " and 4" if tier == "thorough" else "",
                                                                            sum(1 for e in exprs if e["k"] == "tagged"), L),
            "queries": queries, "solver_s": round(solver_s, 2), "wall_s": round(time.time() - start, 1),
            "encodes": ["automata::NFA::compile", "automata::NFA::sequence", "automata::NFA::choice", "automata::NFA::optional",
@@ -468,3 +468,77 @@ def replay(data):
         print("VIOLATION property=C15 replay=%s" % data.get("path", ""))
         return 1
     return 0
+
+
+# ------------------------------------------------------------------------------------------
+# UTF-8 acceptance over the production tables (C06: command automaton, C04: event automaton)
+# ------------------------------------------------------------------------------------------
+def utf8_acceptance(sub, domain, z3exe=None):
+    """sub: matcher sub-table (gens.matcher_subtable). domain: 'not_escape' | 'printable'.
+    Decides: exists a Unicode scalar value c in the domain whose UTF-8 encoding the production
+    automaton does NOT accept as this matcher (ending in an accepting state whose first tag is the
+    matcher). Returns (status, model_or_None, seconds) with status unsat/sat/error."""
+    ncls, trans, acc, start, cls = sub["ncls"], sub["trans"], sub["acc"], sub["start"], sub["class"]
+    nst = len(acc)
+    L = ["(set-logic ALL)", "(declare-const c (_ BitVec 32))",
+         "(assert (bvule c #x0010ffff))", "(assert (not (and (bvuge c #x0000d800) (bvule c #x0000dfff))))"]
+    if domain == "not_escape":
+        L.append("(assert (not (= c #x0000001b)))")
+    else:
+        # one byte characters are restricted to the printable set ' '..='~'
+        L.append("(assert (or (bvuge c #x00000080) (and (bvuge c #x00000020) (bvule c #x0000007e))))")
+    L.append("(define-fun len () Int (ite (bvult c #x00000080) 1 (ite (bvult c #x00000800) 2 (ite (bvult c #x00010000) 3 4))))")
+
+    def ex(hi, lo):
+        return "((_ extract %d %d) c)" % (hi, lo)
+    # RFC 3629
+    L.append("(define-fun b0 () (_ BitVec 8) (ite (= len 1) %s (ite (= len 2) (bvor #xc0 (concat #b000 %s)) (ite (= len 3) (bvor #xe0 (concat #x0 %s)) (bvor #xf0 (concat #b00000 %s))))))"
+             % (ex(7, 0), ex(10, 6), ex(15, 12), ex(20, 18)))
+    L.append("(define-fun b1 () (_ BitVec 8) (ite (= len 2) (bvor #x80 (concat #b00 %s)) (ite (= len 3) (bvor #x80 (concat #b00 %s)) (bvor #x80 (concat #b00 %s)))))"
+             % (ex(5, 0), ex(11, 6), ex(17, 12)))
+    L.append("(define-fun b2 () (_ BitVec 8) (ite (= len 3) (bvor #x80 (concat #b00 %s)) (bvor #x80 (concat #b00 %s))))" % (ex(5, 0), ex(11, 6)))
+    L.append("(define-fun b3 () (_ BitVec 8) (bvor #x80 (concat #b00 %s)))" % ex(5, 0))
+    # class of a byte: ranges of equal class
+    def cls_expr(b):
+        runs = []
+        s0 = 0
+        for v in range(1, 257):
+            if v == 256 or cls[v] != cls[s0]:
+                runs.append((s0, v - 1, cls[s0]))
+                s0 = v
+        e = str(runs[-1][2])
+        for (lo, hi, k) in reversed(runs[:-1]):
+            e = "(ite (bvule %s #x%02x) %d %s)" % (b, hi, k, e)
+        return e
+    for i in range(4):
+        L.append("(define-fun k%d () Int %s)" % (i, cls_expr("b%d" % i)))
+    def step(q, k):
+        e = "255"
+        for st in range(nst):
+            for kk in range(ncls):
+                t = trans[st * ncls + kk]
+                if t != 255:
+                    e = "(ite (and (= %s %d) (= %s %d)) %d %s)" % (q, st, k, kk, t, e)
+        return e
+    L.append("(define-fun q0 () Int %d)" % start)
+    for i in range(4):
+        L.append("(define-fun q%d () Int %s)" % (i + 1, step("q%d" % i, "k%d" % i)))
+    L.append("(define-fun qend () Int (ite (= len 1) q1 (ite (= len 2) q2 (ite (= len 3) q3 q4))))")
+    accs = " ".join("(= qend %d)" % s for s in range(nst) if acc[s])
+    L.append("(define-fun accepted () Bool (or %s))" % accs)
+    L.append("(assert (not accepted))")
+    L.append("(check-sat)")
+    L.append("(get-value (c))")
+    t0 = time.time()
+    p = subprocess.run([z3exe or os.environ.get("VERIF_Z3", "/usr/bin/z3"), "-in", "-smt2"], input="\n".join(L) + "\n",
+                       capture_output=True, text=True, timeout=600)
+    dt = time.time() - t0
+    out = p.stdout.strip().splitlines()
+    if not out or any(l.startswith("(error") for l in out[:1]):
+        return "error", " ".join(out)[:300], dt
+    if out[0] == "unsat":
+        return "unsat", None, dt
+    if out[0] == "sat":
+        m = re.search(r"#x([0-9a-f]{8})", " ".join(out[1:]))
+        return "sat", int(m.group(1), 16) if m else None, dt
+    return "error", " ".join(out)[:300], dt
